@@ -7,9 +7,9 @@ def env1 : Env := { decls := [
   { under := .struct (.fcons (.basic (.float 64)) (.fcons (.basic (.float 64)) .fnil)), canEq := true } ] }
 
 def pt (a b : Nat) : Val := .struct (.scons (.flt 64 a) (.scons (.flt 64 b) .snil))
-def leaf (addr : Nat) : Val := .struct (.scons (.int 2) (.scons .nilv (.scons .nilv (.scons .nilv .snil))))
+def leaf : Val := .struct (.scons (.int 2) (.scons .nilv (.scons .nilv (.scons .nilv .snil))))
 def node (n : Int) (a1 a2 a3 : Nat) (order : Bool) : Val :=
-  .struct (.scons (.int n) (.scons (.ptr a1 (leaf 0)) (.scons (.slice a2 3 (.scons (.str [104, 105]) .snil))
+  .struct (.scons (.int n) (.scons (.ptr a1 leaf) (.scons (.slice a2 3 (.scons (.str [104, 105]) .snil))
     (.scons (.map a3 (if order then
         .scons (.pair (.str [97]) (pt 0 1)) (.scons (.pair (.str [98]) (pt 5 6)) .snil)
       else .scons (.pair (.str [98]) (pt 5 6)) (.scons (.pair (.str [97]) (pt 0 1)) .snil))) .snil))))
@@ -17,4 +17,10 @@ def node (n : Int) (a1 a2 a3 : Nat) (order : Bool) : Val :=
 example : env1.flagsOk = true := by decide
 example : Supported env1 (.named 0) = true := by decide
 example : hasType env1 (.named 0) (node 1 10 11 12 true) = true := by
-  simp [hasType, fieldsHaveType, allHaveType, entriesHaveType, env1, node, leaf, pt, Env.under, Env.decl?, basicHasType, intInRange, keysDistinct, keyFresh, goEq, canEqual]
+  simp [hasType_eval_named, hasType_eval_basic, hasType_eval_ptr_nil, hasType_eval_ptr, hasType_eval_slice_nil, hasType_eval_slice,
+    hasType_eval_array, hasType_eval_struct, hasType_eval_map_nil, hasType_eval_map,
+    fieldsHaveType, allHaveType, entriesHaveType, env1, node, leaf, pt, Env.under, Env.decl?, basicHasType, intInRange, keysDistinct, keyFresh, goEq, canEqual, Ty.isNamed]
+example : Spec.structEq env1 (.named 0) (node 1 10 11 12 true) (node 1 20 21 22 false) = true := by
+  simp [structEq_eval_named, structEq_eval_basic, structEq_eval_ptr, structEq_eval_slice,
+    structEq_eval_array, structEq_eval_struct, structEq_eval_map,
+    Spec.fieldsEq, Spec.seqEq, Spec.entriesIn, Spec.valueAt, env1, node, leaf, pt, Env.under, Env.decl?, leafEq, Ty.isNamed, Val.slen, fltEq]
